@@ -30,7 +30,7 @@ def bounds(tier):
                     "base" if tier == "quick" else "generated", 1 if tier == "quick" else 2),
                 hash_shapes="$1$ + salt of 0..10 arbitrary characters + $ + body; $9$ + 1..%d arbitrary characters, and $9$ strings of 7 characters with two arbitrary ones; netconan salts %r" % (3 if tier == "quick" else 6, SALTS),
                 address_shapes="IPv6-looking tokens 'fe80:' / '::' / '1:' + up to %d arbitrary characters, IPv4-looking tokens with symbolic digits" % (3 if tier == "quick" else 4),
-                enclosing_runs="bracket / quote runs up to 12 characters around a secret", words_and_as="sensitive-word and AS-number stages on lines of up to %d arbitrary characters" % (2 if tier == "quick" else 4))
+                enclosing_runs="bracket / quote runs up to 12 characters around a symbolic secret; runs of 300 and 3000 characters probed concretely in a fresh interpreter", words_and_as="sensitive-word and AS-number stages on lines of up to %d arbitrary characters" % (2 if tier == "quick" else 4))
 
 
 def items(tier, seed):
@@ -53,8 +53,13 @@ def items(tier, seed):
             out.append(Item("C14", "shape", dict(kind="j9", k=k, salt_idx=si), budget_s=400 if tier == "quick" else 2400, obligation="H2-malformed-hashes"))
     for si in range(len(SALTS)):
         out.append(Item("C14", "shape", dict(kind="j9mix", salt_idx=si), budget_s=400 if tier == "quick" else 2400, obligation="H2-malformed-hashes"))
+    for pre in ("", "rounds=", "rounds=5", "rounds"):
+        for k in ((1, 2) if tier == "quick" else (1, 2, 3)):
+            out.append(Item("C14", "shape", dict(kind="sha512", pre=pre, k=k, salt_idx=0), budget_s=400 if tier == "quick" else 2400, obligation="H2-malformed-hashes"))
     for runlen in (1, 4, 12):
         out.append(Item("C14", "shape", dict(kind="enclosing", run=runlen, salt_idx=0), budget_s=300, obligation="H3-enclosing-runs"))
+    for n in (300, 3000):
+        out.append(Item("C14", "long_runs", dict(n=n), budget_s=600, obligation="H3b-very-long-enclosing-runs"))
     for start in ("fe80:", "::", "1:", ""):
         for k in range(1, (3 if tier == "quick" else 4) + 1):
             out.append(Item("C14", "address", dict(family=6, start=start, k=k), budget_s=600 if tier == "quick" else 3000, obligation="H4-near-addresses"))
@@ -152,6 +157,11 @@ def shape(item, res):
         vs = [z3.BitVec("w%d" % i, 8) for i in range(2)]
         cs = [ord(c) for c in "set secret \"$9$"] + [vs[0]] + [ord(c) for c in "Ab1"] + [vs[1]] + [ord(c) for c in "zQ"] + [ord('"'), 10]
         alpha = NOLT
+    elif kind == "sha512":
+        # $6$<pre><k arbitrary characters>$ab$hhh : parameter / salt fields of a sha512-crypt string, arbitrary (also no further '$')
+        vs = [z3.BitVec("w%d" % i, 8) for i in range(item.params["k"])]
+        cs = [ord(c) for c in "set secret \"$6$" + item.params["pre"]] + vs + [ord(c) for c in "$ab$hhh"] + [ord('"'), 10]
+        alpha = NOLT
     elif kind == "j9":
         k = item.params["k"]
         vs = [z3.BitVec("w%d" % i, 8) for i in range(k)]
@@ -237,4 +247,45 @@ def words_as(item, res):
     _collect(res, paths, lambda m: "".join(chr(c) if isinstance(c, int) else chr(ev(m, c)) for c in cs), "total_line", dict(stage="words_as", salt="S"), "word / AS stages")
 
 
-HARNESSES = {"wild": wild, "shape": shape, "address": address, "words_as": words_as}
+def long_runs(item, res):
+    """H3b: very long runs of enclosing characters (the quantifier names them).  Lengths far beyond the symbolic bounds are
+    probed concretely in a fresh un-instrumented interpreter (default recursion limit); the symbolic items above cover all
+    contents for runs up to 12."""
+    import json
+    import os
+    import subprocess
+    import tempfile
+    n = item.params["n"]
+    here = os.path.dirname(os.path.dirname(os.path.dirname(os.path.abspath(__file__))))
+    res["states"], res["transitions"] = 1, 1
+    for head, tail in (("[", "]"), ("{", "}"), ('"', '"'), ("'", "'"), ('\\"', '\\"'), ("[{\"'", "'\"}]"), (" ", ";")):
+        for tpl in ("password %s\n", "set secret %s\n", "key %s\n"):
+            line = tpl % (head * n + "x7" + tail * n)
+            spec = dict(replay=dict(replayer="total_line", args=dict(stage="pwd", salt="S", a=line)))
+            with tempfile.NamedTemporaryFile("w", suffix=".json", delete=False) as f:
+                json.dump(spec, f)
+                path = f.name
+            try:
+                out = subprocess.run([os.environ.get("VF_PLAIN_PY", "/venv/bin/python"), os.path.join(here, "vf", "replay_main.py"), path], capture_output=True, text=True,
+                                     timeout=300, env=dict(os.environ, VF_REPO=harness.REPO, PYTHONPATH=here))
+            finally:
+                os.unlink(path)
+            res["finals"] += 1
+            last = [l for l in out.stdout.splitlines() if l.startswith("REPLAY-RESULT ")]
+            if not last:
+                raise core.EngineError("long-run probe did not run: %s" % (out.stderr[-300:],))
+            rr = json.loads(last[-1][len("REPLAY-RESULT "):])
+            if rr["violated"]:
+                tag = "raises:long-run:%s" % rr["observed"].split(":")[1] if ":" in str(rr["observed"]) else "raises:long-run"
+                if not any(tag in v["tags"] for v in res["violations"]):
+                    res["violations"].append(dict(description="a run of %d enclosing characters makes the secret stage fail: %s" % (n, str(rr["observed"])[:80]),
+                                                  witness=dict(line=line[:40] + "...", run_length=n), tags=[tag, "raises"], replay=spec["replay"], confirmed=True))
+                    res["status"] = "violated"
+            else:
+                res["finals_unsat"] += 1
+                res["validated"] += 1
+    res["samples"].append(dict(run_length=n, enclosing=["[", "{", "\"", "'", "\\\"", "mixed", "space/;"], forms=3))
+    res["vacuity"] = "witnessed"
+
+
+HARNESSES = {"wild": wild, "shape": shape, "address": address, "words_as": words_as, "long_runs": long_runs}
